@@ -554,6 +554,15 @@ impl<'a> Interp<'a> {
                 };
                 sc.vals.insert(id, Val::K(k));
             }
+            "ijoin" => {
+                // interval join of two timestamped streams: pairs (l, r) with l.ts - lower <= r.ts <= l.ts + upper
+                let lower = n["lower"].as_i64().unwrap();
+                let upper = n["upper"].as_i64().unwrap();
+                let l = sc.take_s(&ins[0]);
+                let r = sc.take_s(&ins[1]);
+                let s = self.bs(l.interval_join(r, lower, upper).map(|(a, b)| fam::comb(a, b)), &id);
+                sc.vals.insert(id, Val::S(s));
+            }
             "merge" => {
                 let l = sc.take_s(&ins[0]);
                 let r = sc.take_s(&ins[1]);
